@@ -93,12 +93,19 @@ Definition choice {A} (cand : list A) : R A :=
          end
   end.
 
-(* seq[i], seq[j] = seq[j], seq[i] *)
+(* seq[n] = v (no effect when n is out of range; shuffle never does that) *)
+Fixpoint set_nth {A} (l : list A) (n : nat) (v : A) : list A :=
+  match l, n with
+  | [], _ => []
+  | _ :: t, O => v :: t
+  | x :: t, S n' => x :: set_nth t n' v
+  end.
+
+(* seq[i], seq[j] = seq[j], seq[i]: the right-hand side is evaluated first, then
+   seq[i] and seq[j] are assigned in this order *)
 Definition swap {A} (l : list A) (i j : nat) : list A :=
   match nth_error l i, nth_error l j with
-  | Some a, Some b =>
-      map (fun '(k, c) => if Nat.eqb k i then b else if Nat.eqb k j then a else c)
-          (combine (seq 0 (length l)) l)
+  | Some a, Some b => set_nth (set_nth l i b) j a
   | _, _ => l
   end.
 
